@@ -250,7 +250,7 @@ namespace OP2Utility::XFile
 
 		fs::path p(pathStr);
 		auto returnPathStr = p.parent_path().generic_string();
-		if (returnPathStr.size() > 0) {
+		if (returnPathStr.size() > 0 && returnPathStr.back() != '/') {
 			returnPathStr += "/";
 		}
 		return returnPathStr;
